@@ -103,6 +103,21 @@ Proof.
   rewrite ltf_row by auto. rewrite (Hy r Hr) at 1. field. auto.
 Qed.
 
+(* the transpose of a unit lower triangular matrix is injective *)
+Lemma lt_injective m z :
+  (forall c, (c < n)%nat -> rsum (fun r => Lf m r c * z r) n = 0) ->
+  forall c, (c < n)%nat -> z c = 0.
+Proof.
+  intros H.
+  assert (K : forall k c, (n - k <= c)%nat -> (c < n)%nat -> z c = 0).
+  { induction k as [|k IH]; intros c Hc Hcn; [lia|].
+    pose proof (H c Hcn) as E. rewrite lt_col in E by auto. unfold isum in E.
+    rewrite rsum_zero in E; [lra|].
+    intros i Hi. destruct (Nat.leb_spec (c + 1) i); [|reflexivity].
+    rewrite (IH i) by lia. lra. }
+  intros c Hc. apply (K n c); lia.
+Qed.
+
 End Algebra.
 
 (* ================================================================================ LDL *)
@@ -185,6 +200,33 @@ Proof.
   rewrite (rsum_ext _ (fun c => rsum (fun i => Lf (mg n M) r i * mg n M i i * Lf (mg n M) c i) n * nth c x 0)).
   2:{ intros c Hc. rewrite (ldl_reconstruct_sym M H r c Hr Hc). reflexivity. }
   apply (ldl_solve_algebra n (mg n M) (fun k => nth k b 0) (fun k => nth k y 0) (fun k => nth k x 0)); auto.
+Qed.
+
+(* an exactly singular input (its symmetric completion annihilates a non-zero vector) is reported
+   as failure *)
+Lemma ldl_singular_fails (x : nat -> R) i rc M :
+  (i < n)%nat -> x i <> 0 ->
+  (forall r, (r < n)%nat -> rsum (fun c => symc (mg n A) r c * x c) n = 0) ->
+  ldl RO n A = Some (rc, M) -> rc = 1%nat.
+Proof.
+  intros Hi Hxi Hker H.
+  destruct ldl_total as (rc' & M' & E & [-> | ->] & _); rewrite E in H; [|injection H as <- _; reflexivity].
+  injection H as <- _. exfalso.
+  pose proof (ldl_success_inv M' E) as (LM & _ & I2 & _).
+  set (m := mg n M').
+  assert (Hd : forall j, (j < n)%nat -> m j j <> 0).
+  { intros j Hj Z. specialize (I2 j Hj Hj). fold m in I2. rewrite Z, Rabs_R0 in I2. lra. }
+  (* L (D L^T x) = 0 *)
+  assert (H1 : forall k, (k < n)%nat -> m k k * rsum (fun c => Lf m c k * x c) n = 0).
+  { apply (l_injective n m). intros r Hr. rewrite <- (Hker r Hr).
+    rewrite (rsum_ext (fun c => symc (mg n A) r c * x c)
+                      (fun c => rsum (fun k => Lf m r k * (m k k * (Lf m c k * x c))) n)).
+    2:{ intros c Hc. rewrite (ldl_reconstruct_sym M' E r c Hr Hc). fold m.
+        rewrite <- rsum_scal_r. apply rsum_ext. intros; ring. }
+    rewrite rsum_swap. apply rsum_ext. intros k Hk. rewrite !rsum_scal. reflexivity. }
+  assert (H2 : forall k, (k < n)%nat -> rsum (fun c => Lf m c k * x c) n = 0).
+  { intros k Hk. specialize (H1 k Hk). apply Rmult_integral in H1. destruct H1; auto. exfalso. apply (Hd k); auto. }
+  apply Hxi. apply (lt_injective n m x H2 i Hi).
 Qed.
 
 End LdlMain.
@@ -293,6 +335,31 @@ Proof.
   rewrite (rsum_ext _ (fun r => (Ltf (mg n M) r i * x r) * rsum (fun c => Ltf (mg n M) c i * x c) n))
     by (intros; now rewrite rsum_scal).
   rewrite rsum_scal_r. apply Rle_0_sqr.
+Qed.
+
+(* consequently: an input whose quadratic form is negative somewhere, or that has a diagonal entry
+   below the threshold (in particular <= 0), is reported as failure *)
+Lemma llt_indefinite_fails (x : nat -> R) rc M :
+  rsum (fun r => x r * rsum (fun c => symc (mg n A) r c * x c) n) n < 0 ->
+  llt RO n A = Some (rc, M) -> rc = 1%nat.
+Proof.
+  intros Hneg H.
+  destruct llt_total as (rc' & M' & E & [-> | ->] & _); rewrite E in H; [|injection H as <- _; reflexivity].
+  injection H as <- _. exfalso.
+  pose proof (llt_success_psd M' x E). lra.
+Qed.
+
+Lemma llt_small_diagonal_fails r rc M :
+  (r < n)%nat -> mg n A r r < tiny ->
+  llt RO n A = Some (rc, M) -> rc = 1%nat.
+Proof.
+  intros Hr Hsmall H.
+  destruct llt_total as (rc' & M' & E & [-> | ->] & _); rewrite E in H; [|injection H as <- _; reflexivity].
+  injection H as <- _. exfalso.
+  destruct (llt_reconstruct M' E) as [_ R2]. destruct (R2 r Hr) as (_ & Ge & _).
+  assert (0 <= rsum (fun i => mg n M' r i * mg n M' r i) r).
+  { apply rsum_nonneg. intros i Hi. apply Rle_0_sqr. }
+  lra.
 Qed.
 
 End LltMain.
